@@ -166,7 +166,18 @@ func PropC04(c *vs.Case, f Factory) error {
 	steps := 2 + c.Int(4)
 	for s := 0; s < steps; s++ {
 		// environment step on the live parent / revisions, possibly invisible to the cache
-		switch c.Weighted(5, 2, 2, 2) {
+		switch c.Weighted(5, 2, 2, 2, 2) {
+		case 4: // an owned child is relabelled so that it no longer matches: it has to be released
+			owned := env.OwnedChildren()
+			if len(owned) > 0 {
+				o := owned[c.Int(len(owned))]
+				d := env.W.Sim.DefByKind(o["apiVersion"].(string), o["kind"].(string))
+				env.W.Sim.ExtUpdate(d.Resource, metaStr(o, "namespace"), metaStr(o, "name"), func(obj map[string]any) {
+					metaOfMap(obj)["labels"] = map[string]any{"app": "relabelled"}
+				})
+				log = append(log, "relabelled "+ObjID(o))
+				c.Class("env:owned-child-relabelled")
+			}
 		case 1: // live parent starts deleting (held by a foreign finalizer)
 			env.W.Sim.ExtUpdate(scn.Cfg.ParentResource, scn.ParentNS(), scn.ParentName(), func(o map[string]any) {
 				m := o["metadata"].(map[string]any)
@@ -222,6 +233,11 @@ func PropC04(c *vs.Case, f Factory) error {
 		if second != nil && c.Prob(1, 2) {
 			at = c.Int(6)
 		}
+		// someone else becomes a co-owner of the object a request is about, right before that request
+		coOwnerAt := -1
+		if c.Prob(1, 3) {
+			coOwnerAt = c.Int(10)
+		}
 		count := 0
 		inNested := false
 		env.W.Sim.Before = func(r *vs.Request) *vs.Fault {
@@ -230,6 +246,17 @@ func PropC04(c *vs.Case, f Factory) error {
 			}
 			idx := count
 			count++
+			if idx == coOwnerAt && r.Name != "" && r.Def.Resource != scn.Cfg.ParentResource && (r.Verb == "get" || r.Verb == "update") {
+				ns := r.Namespace
+				if _, err := env.W.Sim.ExtUpdate(r.Def.Resource, ns, r.Name, func(obj map[string]any) {
+					m := metaOfMap(obj)
+					refs, _ := m["ownerReferences"].([]any)
+					m["ownerReferences"] = append(refs, map[string]any{"apiVersion": "v1", "kind": "ConfigMap", "name": "co-owner", "uid": "uid-co-owner"})
+				}); err == nil {
+					log = append(log, fmt.Sprintf("co-owner reference added to %s %s/%s before request #%d", r.Def.Resource, ns, r.Name, idx))
+					c.Class("co-owner-added-mid-sync")
+				}
+			}
 			if idx == at {
 				inNested = true
 				save := env.W.Sim.Epoch
